@@ -219,6 +219,11 @@ def count_base(e, cf, summaries):
         return cf[e[1][0]]
     if e[0] == 'call' and e[1] in summaries and summaries[e[1]] is not None:
         return (summaries[e[1]], 'inc')
+    if e[0] == 'call' and isinstance(e[1], str) and e[1].endswith('::len') and e[2] and \
+            any((x[0] == 'field' and x[2] == 'outs') or (x[0] in ('havoc', 'phi') and isinstance(x[1], tuple) and 'outs' in x[1]) for x in walk(e[2][0])):
+        # the entry list itself as the counter: cleared per candidate, one entry per slot holding the key (that is R05.4, checked
+        # separately), so its length is 1 + the number of equal-key pops
+        return (1, 'inc')
     if e[0] == 'bin' and e[1] == 'Add':
         for a, b in ((e[2], e[3]), (e[3], e[2])):
             if b[0] == 'const':
@@ -409,6 +414,42 @@ def r05_2_k(ctx, pv):
     return rf
 
 
+def chain_order(pc):
+    """True / False / None: `cmp` written as a chain `X.input.cmp(Y.input)` then (on Equal) `X.output.cmp(Y.output)` is the REVERSE order
+    (X = other, Y = self, no reverse()) / is not / the function is not such a chain"""
+    first = second = None
+    for p in explore(pc, max_visits=1):
+        if p.end != 'return':
+            continue
+        rv = p.ret()
+        while rv[0] == 'agg' and rv[1].endswith('Option::Some') and rv[2]:
+            rv = rv[2][0][1]
+        if not (rv[0] == 'call' and isinstance(rv[1], str) and rv[1].rsplit('::', 1)[-1] in ('cmp', 'partial_cmp') and len(rv[2]) == 2):
+            return None
+        d = [x for x in p.decisions if x[2][0] == 'discr' and x[2][1][0] == 'call' and isinstance(x[2][1][1], str) and x[2][1][1].rsplit('::', 1)[-1] in ('cmp', 'partial_cmp')]
+        if not d:
+            return None
+
+        def sides(c):
+            a, b = c[2]
+            pa = {x[2] for x in walk(a) if x[0] == 'param'}
+            pb = {x[2] for x in walk(b) if x[0] == 'param'}
+            fa = [x[2] for x in walk(a) if x[0] == 'field']
+            fb = [x[2] for x in walk(b) if x[0] == 'field']
+            return pa, pb, fa, fb
+        if d[-1][3] == 0:            # Equal: the second component decides
+            second = sides(rv)
+            first = sides(d[-1][2][1])
+        else:
+            if norm(rv) != norm(d[-1][2][1]):
+                return None
+    if first is None or second is None:
+        return None
+    ok1 = first[0] == {2} and first[1] == {1} and 'input' in first[2] and 'input' in first[3]
+    ok2 = second[0] == {2} and second[1] == {1} and 'output' in second[2] and 'output' in second[3]
+    return ok1 and ok2
+
+
 def r05_3(ctx):
     R = ctx.rule('R05.3', 'heap order = reverse of (key, value); pop_if_equal tests ==, pop_if_le tests <=; difference drains with <=', floor=4)
     lib = ctx.lib
@@ -420,6 +461,10 @@ def r05_3(ctx):
         pc = lib.fn('<raw::ops::Slot as ' + tr)
         if pc is None:
             ctx.missing(R, 'anchor:' + key, 'Slot ordering (%s) not found' % tr)
+            continue
+        ch_ = chain_order(pc)
+        if ch_ is not None:
+            ctx.check(R, ch_, key, 'the heap must order slots by the REVERSE of (key, value) so that the smallest key is on top (lexicographic chain over input, output found in natural order)', fn=pc)
             continue
         for p in explore(pc, max_visits=1):
             if p.end != 'return':
@@ -451,6 +496,15 @@ def r05_3(ctx):
                 natural = pa == {1} and pb == {2}
                 swapped = pa == {2} and pb == {1}
                 ok = key_first and ((natural and rev) or (swapped and not rev))
+            if not ok and len(cmpc) != 1:
+                # lexicographic chain: match a.input.cmp(&b.input) { Equal => a.output.cmp(&b.output), unequal => unequal }
+                chain = chain_order(pc)
+                if chain is not None:
+                    ok = chain
+                    why = 'lexicographic chain over (input, output)'
+                elif chain is None and not cmpc:
+                    ctx.undecided(R, key, 'the ordering of slots is written in a form the rule does not follow: %s' % why, fn=pc)
+                    break
             ctx.check(R, ok, key, 'the heap must order slots by the REVERSE of (key, value) so that the smallest key is on top: %s' % why, fn=pc)
     # conditional pops
     for helper, want in (('pop_if_equal', 'eq'), ('pop_if_le', 'le')):
